@@ -21,7 +21,9 @@ LEVEL_TEXT = ('The sign algebra (24-entry and 8-entry tables, hydrogen-last comp
               'quantified theorem over all neighbour orders, all permutations, all hydrogen placements and all integer '
               'coordinates; the tables are regenerated from /repo on every run and the model is compared exhaustively with the '
               'real private functions, reader and writer. Agreement with RDKit, "mirror images never equal" and "labels only on '
-              'stereogenic centres" are validated by run-time comparison, not proved.')
+              'stereogenic centres" are validated by run-time comparison, not proved - except the label bookkeeping of fix_stereo '
+              '(collection pass, restore rounds, cache state), which is modelled over an arbitrary chiral_* oracle and proved sound, '
+              'complete (fixpoint), terminating, cache-fresh and order-independent, and compared with the real fix_stereo on every run.')
 LEVEL_NOTE = ('Lean kernel; gen_stereo translator; hand-written model of _translate_*_sign/_format_atom/postprocess_molecule tied by '
               'exhaustive correspondence; RDKit is a black box used only as an independent oracle; float rounding of 2-D '
               'coordinates is outside the model (integer coordinates only).')
@@ -33,15 +35,22 @@ RULE = ('exhaustive: template centres (4 heavy / 3 heavy + explicit H / 3 heavy 
         '2 heavy / heavy + explicit H / heavy + implicit H) x every neighbour insertion order x every env permutation, injective '
         'triple and malformed env x stored/given sign; every spelling (start atom, branch order, ring-closure digit order) of one '
         'centre through the real reader and writer; a case is non-trivial when it reaches a table lookup or an error branch of '
-        'the modelled function; distinct by the canonical request line')
+        'the modelled function; distinct by the canonical request line; label-dependent units: hub (tetrahedron / double-bond end / '
+        'allene end) x two, three or four constitutionally identical arms (tetrahedral, di/tri/tetra-substituted double bond, allene, '
+        'with and without spacer) x all 2^k label combinations x random atom orders x constitution-preserving histories, judged by '
+        'brute-force constitutional automorphisms')
 TRUSTED = ['gen_stereo translator (reads the two dict literals from the live module)',
            'hand-written Lean model Model/Stereo.lean, validated by exhaustive correspondence, not derived from the Python text',
            'own spelling generator (independent mini SMILES writer) and inversion-count parity oracle in harness/props/c12.py',
-           'RDKit 2026.3 (independent oracle for the validated clauses only)']
+           'RDKit 2026.3 (independent oracle for the validated clauses only)',
+           'own brute-force automorphism judge over the spec graph (same compound <=> an automorphism carries every parity and every '
+           'cis/trans relation over); hand-written Lean model Model/StereoFix.lean of fix_stereo, its chiral_* oracle answered by the real code']
 ASSUMPTIONS = ['coordinates are exact integers in the geometry model; float rounding is outside the model',
                'RDKit implements the OpenSMILES chirality convention (black box)',
                'labels-only-on-stereogenic-centres and mirror-image inequality are validated on generated molecules with '
-               'constitutionally distinct substituents, not proved']
+               'constitutionally distinct substituents and on hubs with constitutionally identical labelled arms, not proved',
+               'fix_stereo theorems hold for whatever chiral_tetrahedrons / chiral_allenes / chiral_cis_trans compute (oracle); that those '
+               'sets are the stereogenic units is validated by the automorphism judge, not proved']
 
 _state = {}
 KNOWN_SPIRO = 'C12/non-stereogenic-atom-offered-or-labelled/spiro-atom-with-symmetric-ring-next-to-ring-stereocentre'
@@ -406,7 +415,8 @@ def correspond(ctx):
     stream_allene_wedge_model(ctx)
     stream_dependent(ctx)
     stream_fix_model(ctx)
-    ctx.cov['programs'] += 1   # fix_stereo vs Model/StereoFix.lean
+    stream_reader_rounds(ctx)
+    ctx.cov['programs'] += 2   # fix_stereo, postprocess_molecule retry rounds vs Model/StereoFix.lean
     ctx.cov['programs'] += 3   # _chiral_morgan/__differentiation through ==/str, fix_stereo restore rounds, postprocess_molecule retry rounds
     ctx.cov['programs'] += 3   # ring_attached_cumulenes / ring linkers via chiral_*, add_wedge allene branch, _wedge_map allene orders
     ctx.cov['programs'] += 3   # add_atom_stereo, add_cis_trans_stereo, clean_stereo through the cache layer
@@ -3497,31 +3507,94 @@ def stream_fix_model(ctx):
                 continue
             ctx.dist('fix_stereo:' + tag)
             st.add(line, real, {'kind': 'fix-model', 'smiles': smi, 'variant': tag})
-    model = None
-    if st.req and ctx.build_ok:
-        # rounds are reported by the model only: strip before comparing, keep the distribution
-        out = core.run_driver('C12', st.req)
-        if len(out) != len(st.req):
-            ctx.broke('correspondence', 'fix_stereo', f'driver returned {len(out)} lines for {len(st.req)} requests')
-            return
-        bad = []
-        for q, r, mo, me in zip(st.req, st.real, out, st.meta):
-            rounds = mo.rsplit('rounds=', 1)[1] if 'rounds=' in mo else '?'
-            ctx.dist(f'fix_stereo:rounds:{rounds}')
-            mo2 = mo.rsplit(' | rounds=', 1)[0]
-            if mo2.startswith('ok'):
-                head, cache = mo2[2:].rsplit('|', 1)
-                mo2 = 'ok ' + ' '.join(sorted(head.split(), key=lambda t: tuple(map(int, t.split(':'))))) + ' |' + cache
-                mo2 = mo2.replace('ok  |', 'ok  |')
-            r2 = r
-            if ' '.join(mo2.split()) != ' '.join(r2.split()):
-                bad.append((q, r, mo, me))
-        if bad:
-            ctx.cov['disagreements_checked'] += len(bad)
-            q, r, mo, me = bad[0]
-            ctx.sample({'stream': 'fix_stereo', 'request': q[:300], 'real': r, 'model': mo, 'DISAGREE': True})
-            ctx.broke('correspondence', 'fix_stereo', f'{len(bad)} disagreements; first: real={r!r} model={mo!r} meta={me!r}')
-            _state.setdefault('disagreements', []).extend(('fix_stereo', me) for *_x, me in bad[:50])
-        else:
-            i = len(st.req) // 2
-            ctx.sample({'stream': 'fix_stereo', 'request': st.req[i][:300], 'real': st.real[i], 'model': out[i]})
+    _fx_compare(ctx, st, True)
+
+
+def _fx_compare(ctx, st, with_cache):
+    """run the `fx` requests of a Stream; labels compared as sorted sets, cache flag only when the real side reports one"""
+    if not st.req or not ctx.build_ok:
+        return
+    out = core.run_driver('C12', st.req)
+    if len(out) != len(st.req):
+        ctx.broke('correspondence', st.name, f'driver returned {len(out)} lines for {len(st.req)} requests')
+        return
+    bad = []
+    for q, r, mo, me in zip(st.req, st.real, out, st.meta):
+        rounds = mo.rsplit('rounds=', 1)[1] if 'rounds=' in mo else '?'
+        ctx.dist(f'{st.name}:rounds:{rounds}')
+        mo2 = mo.rsplit(' | rounds=', 1)[0]
+        if mo2.startswith('ok'):
+            head, cache = mo2[2:].rsplit('|', 1)
+            mo2 = 'ok ' + ' '.join(sorted(head.split(), key=lambda t: tuple(map(int, t.split(':')))))
+            if with_cache:
+                mo2 += ' |' + cache
+        if ' '.join(mo2.split()) != ' '.join(r.split()):
+            bad.append((q, r, mo, me))
+    if bad:
+        ctx.cov['disagreements_checked'] += len(bad)
+        q, r, mo, me = bad[0]
+        ctx.sample({'stream': st.name, 'request': q[:300], 'real': r, 'model': mo, 'DISAGREE': True})
+        ctx.broke('correspondence', st.name, f'{len(bad)} disagreements; first: real={r!r} model={mo!r} meta={me!r}')
+        _state.setdefault('disagreements', []).extend((st.name, me) for *_x, me in bad[:50])
+    else:
+        i = len(st.req) // 2
+        ctx.sample({'stream': st.name, 'request': st.req[i][:300], 'real': st.real[i], 'model': out[i]})
+
+
+def stream_reader_rounds(ctx):
+    """K: the retry rounds of the SMILES reader (`postprocess_molecule`: calls refused as NotChiral are retried after the stereo
+    caches were flushed, until a round makes no progress) are the restore rounds of the model: queue = every unit marked in the
+    spelling (known from the spec, not from the parser), oracle = the real chiral_* sets for the labels present so far"""
+    from chython import smiles
+    st = Stream(ctx, 'reader_rounds')
+    rng = ctx.rng
+    for name in dep_names():
+        spec = dep_spec(name)
+        els = [('c', c) for c in spec.centres] + [('d', d) for d in spec.dbonds] + [('a', c) for c in spec.allenes]
+        masks = list(range(1 << len(els)))
+        if ctx.quick:
+            masks = rng.sample(masks, 2)
+        for mask in masks:
+            pick = [e for i, e in enumerate(els) if mask >> i & 1]
+            sp = flip_subset(spec, {x for t, x in pick if t == 'c'}, {x for t, x in pick if t == 'd'}, {x for t, x in pick if t == 'a'})
+            for smi, index, _nb in spellings(sp, rng, 1 if ctx.quick else 3):
+                try:
+                    mol = smiles(smi)
+                except Exception:
+                    continue
+                num = {a: index[a] + 1 for a in index}
+                term = mol._stereo_cis_trans_terminals
+                now = {u[:3]: u[3] for u in _fx_units_now(mol)}
+                # text order of the marks = order of the reader's call list: atoms (tetrahedra, allenes) by token, then bonds
+                marked = sorted([(num[c], 0) for c in sp.centres] + [(num[c], 1) for c in sp.allenes])
+                atoms, pend = [], []
+                for n, k in marked:
+                    sgn = now.get((k, n, 0), 1)
+                    atoms += [n, sgn, int(k == 0), int(k == 1)]
+                    pend.append((k, n, 0, sgn))
+                bonds = []
+                for (a, b) in sp.dbonds:
+                    ta = term.get(num[a])
+                    if not ta:
+                        continue
+                    sgn = now.get((2, ta[0], ta[1]), 1)
+                    bonds += [ta[0], ta[1], 2, sgn, ta[0], ta[1], ta[0], ta[1]]
+                    pend.append((2, ta[0], ta[1], sgn))
+                pending, restored, table = list(pend), [], []
+                for _ in range(len(pending) + 1):
+                    if not pending:
+                        break
+                    ch = _fx_chiral(mol, restored)
+                    table.append((list(restored), ch))
+                    units = set(ch)
+                    ok = [l for l in pending if l[:3] in units]
+                    if not ok:
+                        break
+                    restored = restored + ok
+                    pending = [l for l in pending if l[:3] not in units]
+                line = ['fx', len(atoms) // 4] + atoms + [len(bonds) // 8] + bonds + [len(table)]
+                for ls, us in table:
+                    line += [len(ls)] + [x for l in ls for x in l] + [len(us)] + [x for u in us for x in u]
+                real = 'ok ' + ' '.join(':'.join(map(str, u)) for u in _fx_units_now(mol))
+                st.add(' '.join(map(str, line)), real, {'kind': 'reader-rounds', 'smiles': smi})
+    _fx_compare(ctx, st, False)
